@@ -233,6 +233,14 @@ def dateparse(val: str, t: type[DateTimeT]) -> DateTimeT:
             exact = t.fromisoformat(val)
             if exact.tzinfo is not None:
                 return exact  # type: ignore[return-value]
+    if issubclass(t, datetime.timedelta) and val[:1] in ("-", "+"):
+        # One sign for the whole duration (what `isoformat()` writes); pendulum reads none.
+        magnitude = dateparse(val[1:], t)
+        if val[0] == "+":
+            return magnitude
+        # (Negated on whole microseconds: pendulum negates through float seconds.)
+        one = datetime.timedelta(microseconds=1)
+        return -datetime.timedelta.__floordiv__(magnitude, one) * one  # type: ignore[return-value]
     try:
         # When `exact=False`, the only two possibilities are DateTime and Duration.
         parsed: pendulum.DateTime | pendulum.Duration = pendulum.parse(val)  # type: ignore[assignment]
